@@ -31,6 +31,8 @@ def notations():
     groups.append(('Substitution', Sb.Substitution().pretty_options(), [Sb.forall(0)]))
     loose = [K.sorted_exists(0), K.sorted_exists(1), K.kore_exists(0), K.kore_exists(2), Sb.forall(1), Sb.forall(2)]
     loose += [K.nary_app(P.Symbol('f'), n, c) for n in range(0, 4) for c in (False, True)]
+    # wide applications: format fields with two-digit indices
+    loose += [K.nary_app(P.Symbol('w'), n, c) for n in (9, 10, 11, 12) for c in (False, True)]
     for n in loose:
         groups.append((f'own:{n.label}', P.PrettyOptions(notations={n.definition: n}), [n]))
     return groups
@@ -55,7 +57,12 @@ def notation_chunk(args):
     out = {'evals': 0, 'distinct_pairs': 0, 'viol': []}
     for n in nots:
         pl = pool if n.arity <= 2 else (pool[:4] if n.arity == 3 else pool[:3])
-        tuples = list(itertools.product(range(len(pl)), repeat=n.arity))
+        if n.arity > 4:
+            # wide notations: a base tuple and every tuple that differs from it in exactly one position
+            base = (0,) * n.arity
+            tuples = [base] + [base[:i] + (1,) + base[i + 1:] for i in range(n.arity)]
+        else:
+            tuples = list(itertools.product(range(len(pl)), repeat=n.arity))
         apps = []
         for t in tuples:
             a = n(*[pl[i] for i in t])
